@@ -104,11 +104,13 @@ namespace occa {
     if (!modeDevice) {
       return;
     }
-    modeDevice->removeDeviceRef(this);
+    // Whether this was the last reference is decided together with its
+    // removal: the object may be gone as soon as another thread removes its own
+    const bool needsFree = modeDevice->removeDeviceRef(this);
 #ifdef LIBOCCA_OCCA_VERIF
     verif::yield(verif::ptAfterRemoveDeviceRef);
 #endif
-    if (modeDevice->modeDevice_t::needsFree()) {
+    if (needsFree) {
       free();
     }
   }
